@@ -364,7 +364,7 @@ fn bases(rng: &mut Rng, thorough: bool) -> Vec<(u64, Vec<u8>, String)> {
     let shapes: Vec<(usize, usize, usize, usize)> = if thorough {
         vec![(0, 0, 0, 0), (1, 1, 0, 0), (2, 1, 33, 1), (0, 2, 7, 2), (3, 3, 120, 0), (1, 0, 0, 3), (5, 4, 300, 2)]
     } else {
-        vec![(0, 0, 0, 0), (1, 1, 5, 0), (2, 1, 33, 1), (0, 2, 7, 2)]
+        vec![(0, 0, 0, 0), (1, 1, 5, 0), (2, 1, 33, 1), (0, 2, 7, 2), (3, 2, 64, 0), (1, 0, 0, 3)]
     };
     for (k, (nf, nt, nd, nh)) in shapes.iter().enumerate() {
         let t = gen_tx(rng, *nf, *nt, *nd, *nh, k);
@@ -487,7 +487,7 @@ fn main() {
         let extra = 1 + rng.below(40) as usize;
         m.extend(rvec(&mut rng, extra));
         ctx.one("trailing-bytes", *fmt, &m, what);
-        let flips = if thorough { 40 } else { 6 };
+        let flips = if thorough { 60 } else { 16 };
         for _ in 0..flips {
             if bytes.is_empty() {
                 break;
@@ -499,7 +499,7 @@ fn main() {
         }
     }
     // 4. random strings for every decoder, with every message tag in front
-    let nrand = if thorough { 400 } else { 40 };
+    let nrand = if thorough { 600 } else { 160 };
     for fmt in 1..=14u64 {
         for k in 0..nrand {
             let len = match k % 4 {
